@@ -8,7 +8,7 @@ CONSTANTS
   Versions = {0, 1, 2, 3}
   VerEpochs = {"", "va", "vb"}
   IdemKeys = {"", "k1", "k2"}
-  IdemTTLs = {1, 2}
+  IdemTTLs = {1, 2, 3}
   Scores <- ScoresSim
   Limits <- LimitsBig
   PageSizes = {1, 2}
@@ -17,5 +17,5 @@ CONSTANTS
   MaxOps = 14
   Deterministic = TRUE
   Manual = FALSE
-INVARIANTS TypeOK ReadStreamIsRetainedSuffix ReadStateIsRefPage PageAfterCursor
+INVARIANTS TypeOK SweeperArmed ReadStreamIsRetainedSuffix ReadStateIsRefPage PageAfterCursor OrderedFlagFollowsOptions
 CHECK_DEADLOCK FALSE
